@@ -24,7 +24,24 @@ RECURSIVE JudgeFrom(_, _, _, _)
 JudgeFrom(r, i, pre, acc) == IF i > Len(r.steps) THEN acc
    ELSE LET j == JudgeStep(pre, [set |-> r.sudo.set = <<"true">>, uid |-> r.sudo.uid, gid |-> r.sudo.gid], r.steps[i]) IN
         IF j[1] = "BAD" THEN Append(acc, j) ELSE JudgeFrom(r, i + 1, r.steps[i].post, Append(acc, j))
-Judge(r) == IF r.k = "cr-skip" THEN << <<"skip", "creds", "not-real-root">> >>
+\* user database records
+SameUser(e, got) == IF e.o # "ok" THEN got.o = e.o
+   ELSE /\ got.o = "ok" /\ got.v.uid = e.uid /\ got.v.gid = e.gid /\ got.v.name = e.name /\ got.v.home = e.home /\ got.v.shell = e.shell
+        /\ got.v.ruid = e.ruid /\ got.v.rgid = e.rgid /\ got.v.realname = e.realname /\ got.v.realhome = e.realhome
+        /\ got.v.realshell = e.realshell /\ (got.v.is_root = <<"true">>) = e.is_root
+UFlags(e, sudo, uid) == <<IF uid = 0 THEN "uid=0" ELSE "uid>0", Flag(sudo.set, "sudo-pair"), IF e.o = "ok" THEN (IF e.ruid # e.uid THEN "behind-sudo" ELSE "self") ELSE "missing">>
+JudgeUsers(r) ==
+   LET sudo == [set |-> r.sudo.set = <<"true">>, uid |-> r.sudo.uid, gid |-> r.sudo.gid]
+       one(q) == LET e == FromUid(r.pw, sudo, q.uid) IN
+                 IF SameUser(e, q.r) THEN <<"ok", "from_uid", "nt">> \o UFlags(e, sudo, q.uid)
+                 ELSE <<"BAD", "from_uid", IF (e.o = "ok") # (q.r.o = "ok") THEN "existence" ELSE "wrong-field">> \o UFlags(e, sudo, q.uid)
+       cur == Current(r.pw, sudo, Cr(r.me))
+       curj == IF SameUser(cur, r.cur) THEN <<"ok", "current", "nt">> \o UFlags(cur, sudo, r.me[1])
+               ELSE <<"BAD", "current", "not-from_uid(getuid)">> \o UFlags(cur, sudo, r.me[1])
+       namej == IF (cur.o = "ok" /\ r.name.o = "ok" /\ r.name.v = cur.name) \/ (cur.o # "ok" /\ r.name.o = cur.o) THEN <<"ok", "name", "nt">>
+                ELSE <<"BAD", "name", "not-current().name">> IN
+   [i \in 1..Len(r.q) |-> one(r.q[i])] \o <<curj, namej>>
+Judge(r) == IF r.k = "fu" THEN JudgeUsers(r) ELSE IF r.k = "cr-skip" THEN << <<"skip", "creds", "not-real-root">> >>
             ELSE IF r.k = "cr-crash" THEN << <<"BAD", "creds", "child-crashed">> >>
             ELSE JudgeFrom(r, 1, r.init, <<>>)
 VARIABLES l
